@@ -280,3 +280,94 @@ def run(ck):
     s4 = _core.Shared(ck, 'R20.9', lambda r, k: r == 'R4.3', 'C04:', ' [preview mode has no later pass: what is not evaluated while the form is built is never type-checked and never reported]')
     c04.run(s4)
     ck.floor('R20.9', s4.count, 20, 'shared C04 R4.3 obligations')
+
+    # ---- R20.10 an object definition is recognised as one whatever letters its type name is written with --------------------------------------
+    ck.rule('R20.10', '`Name { .. }` is an object exactly when Name starts with an upper-case letter, in any script')
+    type_name_predicate(ck, L, 'R20.10')
+
+    # ---- R20.11 a fault in a grid position or count is reported and never stops the run (shared with C12) ---------------------------------------
+    import rules.c12 as c12
+    ck.rule('R20.11', 'grid indices are range-checked on their own axis and no flow count can be zero (shared with C12)')
+    s12 = _core.Shared(ck, 'R20.11', lambda r, k: r == 'R12.8' or (r == 'R12.3' and k.startswith(('bounds|', 'bound-paired-with-axis', 'index-range-check'))), 'C12:',
+                       ' [an index that is out of range must be reported and the item keeps the cell it has without the binding; a zero count would abort the preview]')
+    c12.run(s12)
+    ck.floor('R20.11', s12.count, 8, 'shared C12 R12.3 / R12.8 obligations')
+
+
+CHAR_PREDS = {
+    'is_uppercase': lambda c: c.isupper(), 'is_lowercase': lambda c: c.islower(), 'is_ascii_uppercase': lambda c: 'A' <= c <= 'Z',
+    'is_ascii_lowercase': lambda c: 'a' <= c <= 'z', 'is_alphabetic': lambda c: c.isalpha(), 'is_ascii_alphabetic': lambda c: c.isascii() and c.isalpha(),
+    'is_alphanumeric': lambda c: c.isalnum(), 'is_ascii_alphanumeric': lambda c: c.isascii() and c.isalnum(), 'is_ascii': lambda c: c.isascii(),
+    'is_numeric': lambda c: c.isnumeric(), 'is_ascii_digit': lambda c: '0' <= c <= '9',
+}
+UPPER_SAMPLES = ['A', 'Q', 'Z', 'É', 'Ω', 'Ж', 'İ']
+LOWER_SAMPLES = ['a', 'q', 'z', 'é', 'ω', 'ж']
+
+
+def char_pred(e, param=None):
+    """a Python predicate for a Rust char predicate expression (a path to a char method, or a closure over such methods), or None"""
+    e = H.strip_refs(e)
+    k = e.get('k')
+    if k == 'Path' and e.get('res') == 'def':
+        return CHAR_PREDS.get((e.get('def') or '').split('::')[-1]) if 'char' in (e.get('def') or '') else None
+    if k == 'Closure':
+        bs = H.pat_bindings(e['params'][0]) if e.get('params') else []
+        return char_pred_body(e['body'], {b['hid'] for b in bs}) if len(bs) == 1 else None
+    return None
+
+
+def char_pred_body(e, hids):
+    e = H.strip_refs(e)
+    while e.get('k') == 'Block' and not e.get('stmts') and 'e' in e:
+        e = H.strip_refs(e['e'])
+    k = e.get('k')
+    if k == 'Unary' and e.get('op') == 'Not':
+        f = char_pred_body(e['e'], hids)
+        return (lambda c: not f(c)) if f else None
+    if k == 'Binary' and e.get('op') in ('And', 'Or'):
+        f, g = char_pred_body(e['l'], hids), char_pred_body(e['r'], hids)
+        if not f or not g:
+            return None
+        return (lambda c: f(c) and g(c)) if e['op'] == 'And' else (lambda c: f(c) or g(c))
+    if k in ('MCall', 'Call'):
+        args = H.call_args(e)
+        nm = e.get('m') if k == 'MCall' else (e.get('def') or '').split('::')[-1]
+        a0 = H.strip_refs(args[0]) if args else {}
+        if len(args) == 1 and a0.get('k') == 'Path' and a0.get('hid') in hids and nm in CHAR_PREDS and 'char' in (e.get('def') or ''):
+            return CHAR_PREDS[nm]
+    return None
+
+
+def type_name_predicate(ck, L, rule):
+    fn = L.fn('qmlast::term::Identifier::maybe_type_name')
+    if fn is None:
+        ck.floor(rule, 0, 1, 'fn Identifier::maybe_type_name')
+        return
+    ck.analysed(fn['path'])
+    rets = list(H.return_exprs(fn['body']))
+    pred = None
+    why = 'the decision is not one test of the first character'
+    if len(rets) == 1:
+        r = H.strip_refs(rets[0])
+        # s.starts_with(pred)  |  s.chars().next().map_or(false, pred) / .is_some_and(pred)
+        if r.get('k') == 'MCall' and r.get('m') == 'starts_with' and len(r['args']) == 1 and (L.ty(r['args'][0]) or '') not in ('&str', 'char'):
+            pred = char_pred(r['args'][0])
+        elif r.get('k') == 'MCall' and r.get('m') in ('map_or', 'is_some_and') and H.strip_refs(r['recv']).get('m') == 'next' and \
+                H.strip_refs(H.strip_refs(r['recv'])['recv']).get('m') == 'chars':
+            if r['m'] == 'is_some_and' or H.lit_value(r['args'][0]) is False:
+                pred = char_pred(r['args'][-1])
+        if pred is None:
+            why = 'the character test `%s` is not understood' % pp(r, maxlen=70)
+    if pred is None:
+        ck.ob(rule, 'first-letter-decides', False, L.loc(fn['body']), why, fn=fn['path'])
+        return
+    up = [c for c in UPPER_SAMPLES if not pred(c)]
+    lo = [c for c in LOWER_SAMPLES if pred(c)]
+    ck.ob(rule, 'upper-case-first-letter-is-a-type-name', not up, L.loc(fn['body']),
+          'all of %s start a type name' % ' '.join(UPPER_SAMPLES) if not up else
+          'names starting with %s are not taken as type names: `%sx { .. }` in an object body is read as a grouped binding, so an unknown type written in that script damages its parent '
+          'instead of being dropped with its own subtree' % (' '.join(up), up[0]), fn=fn['path'])
+    ck.ob(rule, 'lower-case-first-letter-is-a-property-name', not lo, L.loc(fn['body']),
+          'none of %s starts a type name' % ' '.join(LOWER_SAMPLES) if not lo else 'names starting with %s are taken as type names: grouped bindings become child objects' % ' '.join(lo), fn=fn['path'])
+    users = [f['path'] for f in L.fn_list if f.get('body') is not None and any(H.is_call_to(c, 'Identifier::maybe_type_name') for c in H.calls_in(f['body']))]
+    ck.floor(rule, len(users), 2, 'callers of Identifier::maybe_type_name')
